@@ -42,3 +42,17 @@ Print Assumptions C09_client_hello.
 Print Assumptions C09_open_spec.
 Print Assumptions C09_open_complete.
 Print Assumptions C09_fail_is_netconf_error.
+
+(* ---- the decision logic is the source's: translated statement by statement on this run ---- *)
+From Scrapli Require Import DecideLang GeneratedSkel Decide.
+
+(* gen/decide.go translates the body of Driver.determineVersion (driver/netconf/capabilities.go)
+   into GeneratedSkel.determine_version_code; Decide.dv_run interprets it.  For EVERY capability
+   list and EVERY preference the translated source selects the version the model selects, fails
+   exactly when the model fails, and leaves the channel's prompt pattern on the delimiter of the
+   selected version ("all later traffic uses the selected framing") *)
+Theorem C09_determine_version_is_source : forall caps p,
+  dv_run (has_cap ncd_v1dot0_cap caps) (has_cap ncd_v1dot1_cap caps) p = dv_spec caps p.
+Proof. exact determine_version_is_source. Qed.
+
+Print Assumptions C09_determine_version_is_source.
